@@ -24,6 +24,8 @@ type Profile struct {
 	OldVersions       bool // store some definitions in older spec versions
 	NumberFormat      bool // environments may carry a number_format
 	ForceRedaction    int  // 0 = draw, 1 = none, 2 = urns
+	URNRefs           bool // templates reference the contact's URNs more often than anything else (C19)
+	NoURNQueries      bool // group queries never test URNs (the redaction policy may be switched on later)
 	RichLocalization  bool // >=2 translation languages more often
 	FewKnobs          bool // default engine options
 	NoAirtime         bool // no transfer_airtime (it operates on URNs by contract: its errors name the number)
@@ -158,6 +160,7 @@ type G struct {
 	resultNames                   []string
 	forceKind                     string
 	idiom, forceResult, forceWait bool
+	parentFlavor                  bool
 }
 
 func (g *G) uuid(kind int) string {
@@ -409,7 +412,7 @@ func (g *G) genQuery(depth int) string {
 		return l + op + r
 	}
 	kinds := []string{"name", "language", "last_seen", "tickets", "urn_scheme", "created_on", "field", "field"}
-	if g.S.Env.RedactionPolicy == "urns" {
+	if g.S.Env.RedactionPolicy == "urns" || g.P.NoURNQueries {
 		kinds = []string{"name", "language", "last_seen", "tickets", "created_on", "field", "field", "name"}
 	}
 	switch kinds[t.Pick("qkind", len(kinds))] {
@@ -418,13 +421,13 @@ func (g *G) genQuery(depth int) string {
 	case "language":
 		return []string{`language = "eng"`, `language != ""`, `language = ""`, `language = "spa"`, `language != "eng"`}[t.Pick("qlang", 5)]
 	case "last_seen":
-		return []string{`last_seen_on != ""`, `last_seen_on = ""`, `last_seen_on > "2000-01-01"`, `last_seen_on < "2030-01-01"`, `last_seen_on >= "2025-06-01"`}[t.Pick("qseen", 5)]
+		return []string{`last_seen_on != ""`, `last_seen_on = ""`, `last_seen_on > "2000-01-01"`, `last_seen_on < "2030-01-01"`, `last_seen_on >= "2025-06-01"`, `last_seen_on < "2025-06-02"`, `last_seen_on = "2025-06-01"`, `last_seen_on > "2025-05-31"`}[t.Pick("qseen", 8)]
 	case "tickets":
 		return []string{`tickets > 0`, `tickets = 0`, `tickets = 1`, `tickets != 0`}[t.Pick("qtickets", 4)]
 	case "urn_scheme":
 		return []string{`tel != ""`, `tel = ""`, `facebook != ""`, `telegram = ""`, `tel ~ "555"`, `urn ~ "12065"`, `whatsapp != ""`, `mailto != ""`}[t.Pick("qurn", 8)]
 	case "created_on":
-		return []string{`created_on > "2000-01-01"`, `created_on < "2020-01-01"`, `created_on = "2018-06-20"`, `created_on >= "2019-03-05"`}[t.Pick("qcreated", 4)]
+		return []string{`created_on > "2000-01-01"`, `created_on < "2020-01-01"`, `created_on = "2018-06-20"`, `created_on >= "2019-03-05"`, `created_on = "2019-03-06"`, `created_on > "1999-12-31"`, `created_on <= "2020-02-28"`}[t.Pick("qcreated", 7)]
 	default:
 		if len(g.S.Fields) == 0 {
 			return `name != ""`
@@ -436,7 +439,7 @@ func (g *G) genQuery(depth int) string {
 		case "number":
 			return f.Key + []string{` > 10`, ` <= 10`, ` = 7`, ` != ""`, ` = ""`, ` >= 18`, ` < 0`}[t.Pick("qfnum", 7)]
 		case "datetime":
-			return f.Key + []string{` != ""`, ` > "2020-01-01"`, ` < "2020-01-01"`, ` = "2020-02-29"`, ` = ""`}[t.Pick("qfdate", 5)]
+			return f.Key + []string{` != ""`, ` > "2020-01-01"`, ` < "2020-01-01"`, ` = "2020-02-29"`, ` = ""`, ` = "2020-01-01"`, ` > "2019-12-31"`, ` <= "2019-12-31"`}[t.Pick("qfdate", 8)]
 		default:
 			return f.Key + []string{` != ""`, ` = ""`, ` = "Kigali City"`, ` ~ "Kigali"`}[t.Pick("qfloc", 4)]
 		}
